@@ -68,7 +68,9 @@ func (dt *deleteTracker[Obj]) close() {
 	if !table.locked {
 		panic("BUG: Table not locked")
 	}
-	_, _, updated := table.deleteTrackers.Delete([]byte(dt.trackerName))
+	dtTxn := table.deleteTrackers.Txn()
+	dtTxn.Delete([]byte(dt.trackerName))
+	updated := dtTxn.Commit()
 	table.deleteTrackers = &updated
 	wtxn.Commit()
 
